@@ -365,7 +365,7 @@ Fixpoint addr (t : tgt) (k : nat) (s b : nat) : Prop :=
   | TSig s' w => s' = s /\ k = b /\ b < w
   | TCast a => addr a k s b
   | TSlice a lo hi => k + lo < hi /\ addr a (k + lo) s b
-  | TPart a offw w st => exists o, o < 2 ^ offw /\ addr a (k + o * st) s b
+  | TPart a offw w st => k < w /\ exists o, o < 2 ^ offw /\ addr a (k + o * st) s b
   | TCat ps =>
       (fix go (ps : list tgt) (off : nat) : Prop :=
          match ps with
@@ -421,7 +421,7 @@ Fixpoint addrb (t : tgt) (k s b : nat) : bool :=
   | TSig s' w => Nat.eqb s' s && Nat.eqb k b && (b <? w)
   | TCast a => addrb a k s b
   | TSlice a lo hi => (k + lo <? hi) && addrb a (k + lo) s b
-  | TPart a offw w st => existsb (fun o => addrb a (k + o * st) s b) (seq 0 (2 ^ offw))
+  | TPart a offw w st => (k <? w) && existsb (fun o => addrb a (k + o * st) s b) (seq 0 (2 ^ offw))
   | TCat ps =>
       (fix go (ps : list tgt) (off : nat) : bool :=
          match ps with
